@@ -42,7 +42,7 @@ func init() {
 	}
 	kernel.Register(&kernel.Rig{
 		Property: "C05", Name: "R-chain/replicas", Level: "exploration",
-		Rule:        "one run = one seeded chain of 2-10 blocks (every transaction kind of txgen incl. failing calls, token maps, WASM test contracts, multi-signature/upgrade, confidential transactions; optional elections with VotePeriod 2-3 so that the validator set changes) built on proposer P (explicit list or mempool) and executed on 2-4 persistent replicas + 1-3 ephemeral repetitions per block (fresh instances reopened from a pre-block disk image) that differ in storage mode (trie/kv), mempool cache (off / cold / warm with the block's transactions / warm with other transactions / entries parked before their basic check), age (long-lived / reopened before every block), path (CommitBlock fastsync flag), and the tape-decided order in which the signature pre-check workers pass GetTxFromCache; in 5 of 6 runs contract storage life cycles across blocks (txgen.LifeGen: CLife contracts whose constructor writes slots; later blocks overwrite, clear, read / increment / copy / re-write slots cleared in EARLIER blocks, set+clear and clear+set inside one transaction, reverted calls, coin and issued tokens sent in, SELFDESTRUCT of contracts holding storage, coin and tokens to itself / an account / a fresh address / another contract; a factory CREATE2s children, colliding CREATE2, and - in 1 of 3 of those runs - re-creation of a destroyed child at the same address followed by reads of every slot the old incarnation held); with life cycles on the replica set always holds both storage modes; sometimes a Byzantine block carrying an unbalanced confidential transaction is offered to all replicas. Oracle: an honest block is accepted everywhere (a proposer panic on an explicit list is judged by a second opinion of the same instance on hash-identical objects that passed its basic check: success there = the execution depends on values cached in transaction objects); the stored TxsResult (gas, state hash, receipt hash, bloom, candidates; trie root among same-mode replicas), receipts+logs, the confidential outputs and key images written, the special transactions recorded and the next validator list are byte-equal after encoding on every replica and repetition; after every block the state of every life-cycle contract (code, nonce, coin and token balances, every slot any incarnation ever touched) is read back from every instance's DISK through a fresh state.StateDB (not the running application) and must be identical on all instances and equal to the rig's own storage model (plain maps advanced from calldata and receipt statuses); Byzantine blocks get the same verdict everywhere. non-trivial = >= 2 blocks with >= 6 transactions executed on >= 3 instances; distinct = hash of the chain's (state hash, receipt hash) sequence and the replica variants",
+		Rule:        "one run = one seeded chain of 2-10 blocks (every transaction kind of txgen incl. failing calls, token maps, WASM test contracts, multi-signature/upgrade, confidential transactions; optional elections with VotePeriod 2-3 so that the validator set changes) built on proposer P (explicit list or mempool) and executed on 2-4 persistent replicas + 1-3 ephemeral repetitions per block (fresh instances reopened from a pre-block disk image) that differ in storage mode (trie/kv), mempool cache (off / cold / warm with the block's transactions / warm with other transactions / entries parked before their basic check), age (long-lived / reopened before every block), path (CommitBlock fastsync flag), and the tape-decided order in which the signature pre-check workers pass GetTxFromCache; in 5 of 6 runs contract storage life cycles across blocks (txgen.LifeGen: CLife contracts whose constructor writes slots; later blocks overwrite, clear, read / increment / copy / re-write slots cleared in EARLIER blocks, set+clear and clear+set inside one transaction, reverted calls, coin and issued tokens sent in, SELFDESTRUCT of contracts holding storage, coin and tokens to itself / an account / a fresh address / another contract; a factory CREATE2s children, colliding CREATE2, and - in 2 of 3 of those runs - re-creation of a destroyed child at the same address followed by reads of every slot the old incarnation held); with life cycles on the replica set always holds both storage modes; in 1 of 2 runs the genesis holds the REAL Coefficient wasm contract (simnode CoefficientContract) and every other block carries a governance transaction of the account holding the committee right (sometimes of one that does not): vote period 1-4, vote rate, ranking rates, maximal score, confidential-transfer fee - in force from the next block on, for replicas running since genesis as for reopened ones and the fresh repetitions; sometimes a Byzantine block carrying an unbalanced confidential transaction among 0-5 valid transfers (every position, so that the failing pre-check worker has succeeding neighbours) is offered to all replicas, a block with neighbours twice per replica under tape-chosen release orders of the gated pre-check workers. Oracle: an honest block is accepted everywhere (a proposer panic on an explicit list is judged by a second opinion of the same instance on hash-identical objects that passed its basic check: success there = the execution depends on values cached in transaction objects); the stored TxsResult (gas, state hash, receipt hash, bloom, candidates; trie root among same-mode replicas), receipts+logs, the confidential outputs and key images written, the special transactions recorded and the next validator list are byte-equal after encoding on every replica and repetition; after every block the state of every life-cycle contract (code, nonce, coin and token balances, every slot any incarnation ever touched) is read back from every instance's DISK through a fresh state.StateDB (not the running application) and must be identical on all instances and equal to the rig's own storage model (plain maps advanced from calldata and receipt statuses); the validators CommitBlock returns equal what GetValidators(height) (the replay path) computes from the committed block on the same instance; Byzantine blocks get the same verdict everywhere. non-trivial = >= 2 blocks with >= 6 transactions executed on >= 3 instances; distinct = hash of the chain's (state hash, receipt hash) sequence and the replica variants",
 		Real:        []string{"app.LinkApplication (CreateBlock, PreRunBlock, CheckBlock incl. verifyTxsOnProcess workers, CommitBlock, election path)", "state processor/transition", "state.StateDB trie and kv mode (real kvState.wal file)", "vm/evm, vm/wasm", "mempool incl. tx cache (txHeap) and AddTx", "blockchain.BlockStore", "utxo.UtxoStore", "txmgr", "consensus.BlockExecutor.ApplyBlock", "p2p.ConManager (socket-free) as sink of the election callback", "secp256k1"},
 		Stub:        []string{"consensus state machine (commit signed by the harness with the validator keys)", "storage engine (SimDB)", "libxcrypto (pure-Go model: group arithmetic real, range proof transparent)", "fee-distribution WASM contract not deployed"},
 		Assumptions: []string{"runtime.NumCPU() is fixed per machine (recorded in the sample): the worker count (NumCPU+3)/4 is not varied, the order of the workers at the cache is", "process-wide singletons (BlockBalanceRecordsInstance, BlacklistInstance, UTXO rate getter) are shared by the replicas of a run; the rate getter is re-registered before each replica acts, balance records are off as in node start-up, no blacklist transactions are generated"},
@@ -91,8 +91,10 @@ type world struct {
 	// contract storage life cycles (life.go)
 	life     *txgen.LifeGen
 	lifeMode int  // 0 off, 1 light, 2 heavy
-	reborn   bool // a block re-creating a contract at the address of a destroyed one has been built
 	lifeCnt  [4]int
+
+	// governance: the real Coefficient contract in genesis, gen.Accts[0] holds the right
+	gov bool
 }
 
 type sample struct {
@@ -187,13 +189,15 @@ func runIn(c *kernel.Ctx) {
 	if os.Getenv("C05_LIFE") == "off" { // debugging aid: the workload without life cycles
 		w.lifeMode = 0
 	}
-	rebirth := w.lifeMode > 0 && lt.Bool(1, 3)
+	rebirth := w.lifeMode > 0 && lt.Bool(2, 3)
 	if w.lifeMode == 2 {
 		nBlocks += lt.Int(3)
 		if maxTxs > 6 {
 			maxTxs = 6
 		}
 	}
+	// governance: its own configuration stream too
+	w.gov = c.Tape.Fork("gov-config").Bool(1, 2) && os.Getenv("C05_GOV") != "off"
 	kinds := append(append(append([]txgen.Kind(nil), txgen.AccountKinds...), txgen.WasmKinds...), txgen.UtxoKinds...)
 	w.gen = txgen.New(wl, txgen.Config{Accounts: 3 + ct.Int(4), BlockOnly: true, Utxo: true, Validators: w.allKeys, Kinds: kinds})
 	w.life = txgen.NewLife(w.gen, c.Tape.Fork("life"))
@@ -201,6 +205,9 @@ func runIn(c *kernel.Ctx) {
 	w.smp.Life = []string{"off", "light", "heavy"}[w.lifeMode]
 	if rebirth {
 		w.smp.Life += "+re-creation"
+	}
+	if w.gov {
+		w.smp.Life += "; coefficient governance"
 	}
 	w.smp.NumCPU = runtime.NumCPU()
 	w.smp.Workers = (runtime.NumCPU() + 3) >> 2
@@ -271,7 +278,11 @@ func runIn(c *kernel.Ctx) {
 }
 
 func (w *world) spec(isTrie bool) *simnode.GenesisSpec {
-	return &simnode.GenesisSpec{ChainID: "verif-c05", Vals: w.vals, Alloc: w.gen.Alloc(), IsTrie: isTrie, VotePeriod: w.period, Candidates: w.cands}
+	g := &simnode.GenesisSpec{ChainID: "verif-c05", Vals: w.vals, Alloc: w.gen.Alloc(), IsTrie: isTrie, VotePeriod: w.period, Candidates: w.cands}
+	if w.gov {
+		g.CoefficientContract, g.Governor = true, w.gen.Accts[0].Addr
+	}
+	return g
 }
 
 // holdApp wraps the application the mempool calls: basic checks of selected
@@ -309,7 +320,7 @@ func (w *world) open(rp *replica) error {
 		return err
 	}
 	r.ExtraKeys = w.allKeys
-	if w.period > 0 {
+	if w.period > 0 || w.gov {
 		cm, err := conManager(w.vals[0].Priv)
 		if err != nil {
 			return err
@@ -597,11 +608,6 @@ func (w *world) execute(rp *replica, r *txgen.Replica, disk *simdb.Disk, block *
 		return nil, false
 	}
 	if !ok {
-		if w.reborn && r.Spec.IsTrie != w.reps[0].v.IsTrie {
-			// the known storage-mode dependence; the replicas have diverged: the run ends here
-			c.Violate("diverge", keyDestroyedStorage, "%s rejected the block of height %d built by the proposer (storage mode trie=%v) from the same committed chain; the chain has re-created a contract at the address of a self-destructed one", what, block.Height, w.reps[0].v.IsTrie)
-			return nil, false
-		}
 		c.Violate("reject", "reject/honest-block-rejected", "%s rejected the block built by the proposer from the same committed state at height %d", what, block.Height)
 		return nil, false
 	}
@@ -613,6 +619,18 @@ func (w *world) execute(rp *replica, r *txgen.Replica, disk *simdb.Disk, block *
 	if err != nil {
 		c.Violate("commit", "commit/honest-block-commit-failed", "%s: %v", what, err)
 		return nil, false
+	}
+	// the validators CommitBlock returns for the next height are the ones the
+	// replay path (node start-up's status rebuild, the already-stored branch of
+	// finalizeCommit) computes for the same height
+	var again []*types.Validator
+	if _, _, panicked := kernel.Try(func() { again = r.Chain.App.GetValidators(block.Height) }); !panicked {
+		a, _ := ser.EncodeToBytes(vals)
+		b, _ := ser.EncodeToBytes(again)
+		if !bytes.Equal(a, b) {
+			c.Violate("diverge", "diverge/validators-returned-by-commit-vs-replay-path", "%s, height %d: CommitBlock returned %d validators for the next height, GetValidators(%d) (replay path) computes %d (or others) from the same committed block; block: %s", what, block.Height, len(vals), block.Height, len(again), describeTxs(block))
+			return nil, false
+		}
 	}
 	o, err := observe(r, disk, block.Height, vals)
 	if err != nil {
@@ -636,6 +654,7 @@ func (w *world) block(n int, viaPool bool) bool {
 			}
 		}
 	}
+	gen.Cfg.UTXOGas = P.r.Chain.App.GetUTXOGas() // governance can change it
 	var items []*txgen.Item
 	switch w.lifeMode {
 	case 0:
@@ -654,13 +673,32 @@ func (w *world) block(n int, viaPool bool) bool {
 			items = append(items, w.life.Batch(k)...)
 		}
 	}
+	if w.gov && w.sched.Bool(1, 2) {
+		// the governor (sometimes an account without the right) changes a
+		// coefficient through the real contract: in force from the NEXT block on,
+		// on a node that kept running as on one restarted in between
+		gv := w.govern()
+		if gv != nil && w.sched.Bool(1, 2) {
+			// first in the block is only possible if the sender has nothing earlier in it
+			first := true
+			for _, it := range items {
+				first = first && it.From != gv.From
+			}
+			if first {
+				items = append([]*txgen.Item{gv}, items...)
+				gv = nil
+			}
+		}
+		if gv != nil {
+			items = append(items, gv)
+		}
+	}
 	for _, it := range items {
 		if it.BlockOnly {
 			viaPool = false
 		}
 		if it.Kind == txgen.KLifeSpawn {
 			if ch := w.life.M.C[txgen.LifeChildAddr(*it.To, new(big.Int).SetBytes(it.Data[:32]).Uint64())]; ch != nil && !ch.Alive {
-				w.reborn = true
 				c.Probe("life/block-re-creating-a-destroyed-contract-built")
 			}
 		}
@@ -780,11 +818,6 @@ func (w *world) block(n int, viaPool bool) bool {
 	// root additionally among instances of the same storage mode
 	for i, o := range all[1:] {
 		if f, ok := compare(ref, o); !ok {
-			if w.reborn && !sameMode(ref, o) {
-				// the known storage-mode dependence; the replicas have diverged: the run ends here
-				c.Violate("diverge", keyDestroyedStorage, "height %d: %s differs between %s (trie=%v) and %s (trie=%v); the chain has re-created a contract at the address of a self-destructed one; block: %s", block.Height, f, names[0], ref.trie, names[i+1], o.trie, describe(items))
-				return false
-			}
 			c.Violate("diverge", "diverge/"+f, "height %d: %s differs between %s and %s (%s vs %s); block: %s", block.Height, f, names[0], names[i+1], ref.fields[f], o.fields[f], describe(items))
 			return false
 		}
@@ -816,6 +849,9 @@ func (w *world) block(n int, viaPool bool) bool {
 		if it.Kind != txgen.KMultiSign && receipts[i].Status != types.ReceiptStatusSuccessful {
 			failed++
 		}
+		if it.Kind == txgen.KGovern && receipts[i].Status == types.ReceiptStatusSuccessful {
+			c.Probe("govern/coefficient-changed-by-committed-block")
+		}
 	}
 	if len(P.r.Chain.Status.Validators.Validators) != len(w.vals) {
 		c.Probe("validator-set-changed")
@@ -828,12 +864,40 @@ func (w *world) block(n int, viaPool bool) bool {
 	return true
 }
 
+// govern draws one call of the Coefficient contract.
+func (w *world) govern() *txgen.Item {
+	t, g := w.sched, w.gen
+	from := g.Accts[0]
+	if t.Bool(1, 6) {
+		from = g.Accts[1+t.Int(len(g.Accts)-1)] // holds no right: refused
+	}
+	var in string
+	switch t.Pick(4, 2, 1, 1, 1) {
+	case 0:
+		in = txgen.GovVotePeriod(int64(1 + t.Int(4)))
+	case 1:
+		deno := 1 + t.Int(5)
+		in = txgen.GovVoteRate(deno, 1+t.Int(deno), t.Int(8))
+	case 2:
+		in = txgen.GovCalRate(int64(t.Int(101)), int64(t.Int(101)), int64(t.Int(101)))
+	case 3:
+		in = txgen.GovMaxScore(int64(1 + t.Int(600)))
+	default:
+		in = txgen.GovUTXOFee(big.NewInt(int64(3+t.Int(6)) * 100000000))
+	}
+	return g.Govern(from, in)
+}
+
 func notes(items []*txgen.Item) string {
 	s := ""
 	for i, it := range items {
 		s += fmt.Sprintf("[%d %s: %s] ", i, it.Kind, it.Note)
 	}
 	return s
+}
+
+func describeTxs(b *types.Block) string {
+	return fmt.Sprintf("%d txs", len(b.Data.Txs))
 }
 
 func describe(items []*txgen.Item) string {
@@ -856,10 +920,29 @@ func (w *world) byzantine() bool {
 	c, g := w.c, w.gen
 	g.Reset()
 	defer g.Reset()
+	w.life.Reset()
+	defer w.life.Reset()
+	// the invalid transaction sits among 0-5 valid plain transfers, at every
+	// position: the pre-check spreads the transactions of a block over
+	// (NumCPU+3)/4 workers by index, so the failing worker has neighbours that
+	// succeed before and after it (generation order = block order: nonces)
+	nOthers := w.sched.Int(6)
+	pos := w.sched.Int(nOthers + 1)
+	var pre, post []*txgen.Item
+	for i := 0; i < pos; i++ {
+		if it := g.Make(txgen.KTransfer); it != nil && !it.BlockOnly {
+			pre = append(pre, it)
+		}
+	}
 	base := g.AccToUtxo(g.Accts[w.sched.Int(len(g.Accts))], txgen.Native)
 	if base == nil {
 		c.Probe("byzantine-no-base")
 		return true
+	}
+	for i := pos; i < nOthers; i++ {
+		if it := g.Make(txgen.KTransfer); it != nil && !it.BlockOnly {
+			post = append(post, it)
+		}
 	}
 	cl, err := txgen.CloneTx(base.Tx)
 	if err != nil {
@@ -894,7 +977,9 @@ func (w *world) byzantine() bool {
 		return true
 	}
 	P := w.reps[0]
-	block, _, err := P.r.Propose(txgen.BlockSpec{Explicit: true, Txs: types.Txs{bad}, Time: w.now})
+	list := append(txgen.Txs(pre), bad)
+	list = append(list, txgen.Txs(post)...)
+	block, _, err := P.r.Propose(txgen.BlockSpec{Explicit: true, Txs: list, Time: w.now})
 	if err != nil {
 		if _, ok := err.(*txgen.ProposePanic); ok {
 			c.Probe("byzantine-refused-at-proposer-stage")
@@ -922,24 +1007,39 @@ func (w *world) byzantine() bool {
 	verdicts := ""
 	anyTrue := false
 	for _, rp := range w.reps {
-		blk, _ := txgen.CloneBlock(block)
-		var ok bool
-		var err error
-		if rp.v.Gate {
-			ok, err = w.checkGated(rp, blk)
-		} else {
-			ok, err = rp.r.Check(blk)
+		// a block with neighbours is checked under two tape-chosen release orders
+		// of the pre-check workers on EVERY replica (a refused block leaves
+		// nothing behind), a single-transaction block as the replica is configured
+		rounds := 1
+		if len(list) > 1 {
+			rounds = 2
 		}
-		w.releaseHeld(rp)
-		if err != nil {
-			c.Violate("panic", "panic/CheckBlock/byzantine", "replica %s: %v", rp.v.Name, err)
-			return false
+		for k := 0; k < rounds; k++ {
+			blk, _ := txgen.CloneBlock(block)
+			var ok bool
+			var err error
+			if rp.v.Gate || len(list) > 1 {
+				ok, err = w.checkGated(rp, blk)
+			} else {
+				ok, err = rp.r.Check(blk)
+			}
+			if k == rounds-1 {
+				w.releaseHeld(rp)
+			}
+			if err != nil {
+				c.Violate("panic", "panic/CheckBlock/byzantine", "replica %s: %v", rp.v.Name, err)
+				return false
+			}
+			verdicts += fmt.Sprintf("%s(cache %s)=%v ", rp.v.Name, rp.v.Cache, ok)
+			anyTrue = anyTrue || ok
+			c.Evals(1)
 		}
-		verdicts += fmt.Sprintf("%s(cache %s)=%v ", rp.v.Name, rp.v.Cache, ok)
-		anyTrue = anyTrue || ok
-		c.Evals(1)
 	}
-	c.Fault("byzantine-block/" + name)
+	if len(list) > 1 {
+		c.Fault(fmt.Sprintf("byzantine-block/invalid-tx-at-position-%d-of-%d", pos, len(list)))
+		name += fmt.Sprintf(" at position %d of %d", pos, len(list))
+	}
+	c.Fault("byzantine-block/account-input-lowered-recomputed-commitment")
 	w.smp.Byz = append(w.smp.Byz, name+": "+verdicts)
 	if anyTrue {
 		c.Violate("diverge", "verdict/unbalanced-confidential-tx-accepted-depending-on-replica", "a block carrying an unbalanced confidential transaction (%s) was accepted: %s", name, verdicts)
